@@ -415,3 +415,61 @@ silent("ok-c14-all-pairs-combinations", "C14", V + "rules/overlapping_fields_can
        "            from itertools import combinations\n\n            for field, other_field in combinations(fields, 2):\n                if True:\n                    conflict = find_conflict(")
 silent("ok-c18-options-by-keyword", "C18", U + "introspection_from_schema.py",
        "            experimental_directive_deprecation,\n            one_of,\n", "            one_of=one_of,\n            experimental_directive_deprecation=experimental_directive_deprecation,\n")
+
+# -- round-3 rules: breaking edits ----------------------------------------------------------------------
+P = "src/graphql/pyutils/"
+v("c11-enter-leave-coupled", "C11", "ENTER-LEAVE-TABLE", L + "visitor.py",
+  "            if not leave_fn:\n                leave_fn = getattr(self, \"leave\", None)", "            if not leave_fn and not enter_fn:\n                leave_fn = getattr(self, \"leave\", None)")
+v("c11-stale-result", "C11", "ITERATION-LOCAL", L + "visitor.py",
+  "            else:\n                result = None\n\n        if result is None and is_edited:", "\n        if result is None and is_edited:")
+VARIANTS[-1]["edits"].append({"file": L + "visitor.py", "old": "    parent: Any = None\n    path: list[Any] = []", "new": "    parent: Any = None\n    result: Any = None\n    path: list[Any] = []"})
+v("c09-strip-fast-path", "C09", "STRIP-LEXES", U + "strip_ignored_characters.py",
+  "    body = source.body\n    lexer = Lexer(source)", "    body = source.body\n    if \" \" not in body and \"\\n\" not in body and \",\" not in body:\n        return body\n    lexer = Lexer(source)")
+v("c09-hex-lowercase", "C09", "HEX-TABLE", L + "lexer.py",
+  "    if \"a\" <= char <= \"f\":\n        return ord(char) - 87", "    if \"a\" <= char <= \"f\":\n        return ord(char) - 86")
+v("c08-print-postprocess", "C08", "PRINT-DIRECT", L + "printer.py",
+  "    return visit(ast, PrintAstVisitor())", "    return visit(ast, PrintAstVisitor()).rstrip()")
+v("c08-alias-equals-name", "C08", "PRINTER-FIELDS-INDEPENDENT", L + "printer.py",
+  "        prefix = join((wrap(\"\", node.alias, \": \"), node.name))", "        prefix = join((wrap(\"\", None if node.alias == node.name else node.alias, \": \"), node.name))")
+v("c12-report-swallowed", "C12", "REPORT-DISCIPLINE", V + "rules/lone_anonymous_operation.py",
+  "            self.report_error(\n                GraphQLError(\n                    \"This anonymous operation must be the only defined operation.\", node\n                )\n            )",
+  "            try:\n                self.report_error(\n                    GraphQLError(\n                        \"This anonymous operation must be the only defined operation.\", node\n                    )\n                )\n            except GraphQLError:\n                return")
+v("c02-getattr-for-mappings", "C02", "SOURCE-SIBLINGS", E + "executor.py",
+  "    value = (\n        source.get(field_name)\n        if isinstance(source, Mapping)\n        else getattr(source, field_name, None)\n    )",
+  "    value = source.get(field_name) if isinstance(source, Mapping) else None\n    if value is None:\n        value = getattr(source, field_name, None)")
+v("c06-cancel-catch-narrowed", "C06", "CANCEL-CATCH", E + "executor.py",
+  "            except BaseException:\n                # cancelled while waiting (e.g. because a sibling field failed):", "            except Exception:\n                # cancelled while waiting (e.g. because a sibling field failed):")
+v("c06-own-background-set", "C06", "SHARED-TRACKERS", E + "incremental/incremental_executor.py",
+  "        sub_executor.collected_errors = CollectedErrors()", "        sub_executor.collected_errors = CollectedErrors()\n        sub_executor.background_futures = set()")
+v("c06-bare-await-is-type-of", "C06", "ABORT-WRAP", E + "executor.py",
+  "                    if not await self.with_abort_signal(is_type_of):", "                    if not await is_type_of:")
+v("c07-unused-type-resolver", "C07", "PARAM-USED", E + "execute.py",
+  "        field_resolver,\n        type_resolver,\n        subscribe_field_resolver,\n        max_coercion_errors,\n        enable_early_execution,\n        middleware=middleware,",
+  "        field_resolver,\n        None,\n        subscribe_field_resolver,\n        max_coercion_errors,\n        enable_early_execution,\n        middleware=middleware,")
+v("c17-args-oneline-flipped", "C17", "ARGS-ONELINE", U + "print_schema.py",
+  "    if all(arg.description is None for arg in args.values()):", "    if not all(arg.description is not None for arg in args.values()):")
+v("c17-root-object-only", "C17", "ROOT-NAMES-AGREE", U + "print_schema.py",
+  "        and schema.subscription_type is schema.get_type(\"Subscription\")", "        and schema.subscription_type is (schema.get_type(\"Subscription\") if is_object_type(schema.get_type(\"Subscription\")) else None)")
+v("c03-handler-info-type", "C03", "HANDLER-TYPE", E + "executor.py",
+  "                        self.handle_field_error(\n                            raw_error,\n                            item_type,", "                        self.handle_field_error(\n                            raw_error,\n                            info.return_type,")
+v("c15-undefined-falls-through", "C15", "UNDEFINED-RAISES", E + "values.py",
+  "        msg = \"Invalid argument\"  # pragma: no cover\n        raise GraphQLError(msg, value_node)  # pragma: no cover\n", "        return\n")
+v("c19-config-nodes-in-mapper", "C19", "EXTEND-BUILD-AGREE", U + "extend_schema.py",
+  "                extensions = tuple(type_extensions.union[config[\"name\"]])", "                extensions = config[\"extension_ast_nodes\"] + tuple(type_extensions.union[config[\"name\"]])")
+
+# -- round-3 rules: behaviour-preserving edits -----------------------------------------------------------
+silent("ok-c11-enter-leave-or", "C11", L + "visitor.py",
+       "            enter_fn = getattr(self, f\"enter_{kind}\", None)\n            if not enter_fn:\n                enter_fn = getattr(self, \"enter\", None)",
+       "            enter_fn = getattr(self, f\"enter_{kind}\", None) or getattr(self, \"enter\", None)")
+silent("ok-c08-print-via-local", "C08", L + "printer.py",
+       "    return visit(ast, PrintAstVisitor())", "    printed = visit(ast, PrintAstVisitor())\n    return printed")
+silent("ok-c17-args-not-any", "C17", U + "print_schema.py",
+       "    if all(arg.description is None for arg in args.values()):", "    if not any(arg.description is not None for arg in args.values()):")
+silent("ok-c12-report-try-reraise", "C12", V + "rules/lone_anonymous_operation.py",
+       "            self.report_error(\n                GraphQLError(\n                    \"This anonymous operation must be the only defined operation.\", node\n                )\n            )",
+       "            try:\n                self.report_error(\n                    GraphQLError(\n                        \"This anonymous operation must be the only defined operation.\", node\n                    )\n                )\n            except GraphQLError:\n                raise")
+silent("ok-c06-cancel-catch-tuple", "C06", E + "executor.py",
+       "            except BaseException:\n                # cancelled while waiting (e.g. because a sibling field failed):", "            except (Exception, CancelledError):\n                # cancelled while waiting (e.g. because a sibling field failed):")
+silent("ok-c19-mapper-rename", "C19", U + "extend_schema.py",
+       "                extensions = tuple(type_extensions.union[config[\"name\"]])\n                return merge_kwargs(\n                    config,\n                    types=lambda: [\n                        *config[\"types\"](),\n                        *build_union_types(extensions),\n                    ],\n                    extension_ast_nodes=config[\"extension_ast_nodes\"] + extensions,",
+       "                new_nodes = tuple(type_extensions.union[config[\"name\"]])\n                return merge_kwargs(\n                    config,\n                    types=lambda: [\n                        *config[\"types\"](),\n                        *build_union_types(new_nodes),\n                    ],\n                    extension_ast_nodes=config[\"extension_ast_nodes\"] + new_nodes,")
